@@ -151,6 +151,13 @@ Proof.
   destruct (climb_shape shape c h m) as [c' a]. cbn [fst snd] in *. constructor; [exact A|apply IH, I'].
 Qed.
 
+Lemma climb_amounts_meet_guard shape cap samples a : (1 <= cap < 2 ^ 61)%Z ->
+  In a (amounts shape (climber_new cap) samples) -> (- 9223372036854775808 < a < 9223372036854775808)%Z.
+Proof.
+  intros Hc Hin. pose proof (climber_amounts_in_range shape cap samples Hc) as F.
+  rewrite Forall_forall in F. specialize (F a Hin). lia.
+Qed.
+
 (* the restart rule as written: the step is reset to its full size, in the current direction, exactly when the hit
    ratio of the sample moved by at least the threshold in EITHER direction; otherwise it decays *)
 Lemma climber_shape_as_written : c_climb_restart = (true, 1%Z, 20%Z).
